@@ -323,6 +323,7 @@ fn check(c: &Case, obs: &mut Obs) {
     let mut exp = vec![];
     expect(&c.pieces, enc, next_even, &mut exp);
 
+    let bytes_copy = bytes.clone();
     let consumed = Rc::new(Cell::new(0u64));
     let pos = Rc::new(Cell::new(0u64));
     let total = bytes.len() as u64;
@@ -465,6 +466,66 @@ fn check(c: &Case, obs: &mut Obs) {
         );
     } else if consumed.get() != total {
         obs.fail("C07:bytes left unread at the end", format!("{ctx} consumed {} of {total}", consumed.get()));
+    }
+    if obs.failed() {
+        return;
+    }
+    // The lazy reader under the same odd-length strategy: its tokens (values fetched raw) must be
+    // those of the eager reader, which has just been checked against the stream.
+    let eager: Vec<Result<DataToken, String>> = {
+        let mut o = DataSetReaderOptions::default().value_read(ValueReadStrategy::Raw);
+        o.odd_length = odd;
+        match DataSetReader::new_with_ts_options(&bytes_copy[..], &ts, o) {
+            Ok(r) => r.map(|t| t.map_err(|e| e.to_string())).collect(),
+            Err(e) => vec![Err(e.to_string())],
+        }
+    };
+    let lazy: Vec<Result<DataToken, String>> = {
+        let mut o = dicom_parser::dataset::lazy_read::LazyDataSetReaderOptions::default();
+        o.odd_length = odd;
+        match dicom_parser::dataset::lazy_read::LazyDataSetReader::new_with_ts_options(std::io::Cursor::new(&bytes_copy[..]), &ts, o) {
+            Ok(mut r) => {
+                let mut v = vec![];
+                while let Some(t) = r.advance() {
+                    match t {
+                        Ok(t) => match t.into_owned_with_strategy(ValueReadStrategy::Raw) {
+                            Ok(t) => v.push(Ok(t)),
+                            Err(e) => {
+                                v.push(Err(e.to_string()));
+                                break;
+                            }
+                        },
+                        Err(e) => {
+                            v.push(Err(e.to_string()));
+                            break;
+                        }
+                    }
+                }
+                v
+            }
+            Err(e) => vec![Err(e.to_string())],
+        }
+    };
+    let n = eager.len().min(lazy.len());
+    for k in 0..n {
+        let same = match (&eager[k], &lazy[k]) {
+            (Ok(a), Ok(b)) => crate::props::c06::tok_eq_pub(a, b),
+            (Err(_), Err(_)) => true,
+            _ => false,
+        };
+        if !same {
+            obs.fail(
+                format!("C07:lazy reader differs from the eager reader under the same odd-length strategy:{oddn}"),
+                format!("{ctx} token #{k}: eager {:.120?}, lazy {:.120?}", eager[k], lazy[k]),
+            );
+            return;
+        }
+        if eager[k].is_err() {
+            return;
+        }
+    }
+    if eager.len() != lazy.len() {
+        obs.fail(format!("C07:lazy reader yields a different number of tokens:{oddn}"), format!("{ctx} eager {} lazy {}", eager.len(), lazy.len()));
     }
 }
 
